@@ -87,7 +87,7 @@ RAW_FILES.append(('bom_cookie.py', b'\xef\xbb\xbf# coding: latin-1\nx = 1\n'))
 RAW_FILES.append(('longline.py', b'x = "' + b'a' * 200000 + b'"\n'))
 RAW_FILES.append(('bigint.py', b'X = 0x' + b'F' * 5000 + b'\nY = ' + b'9' * 5000 + b'\ndef f(a=0b' + b'1' * 20000 + b'): pass\n'))
 
-PRIVACY_PATTERNS = ['**.C', '**.Base', '**.f', '**.m', '**.x', '**._p', '**.D.*', 'pkg.dep', 'pkg.mod', 'pkg.sub', 'pkg.sub.**', 'pkg.mod.*', 'pkg.dep.Base', 'pkg.dep.Base.m',
+PRIVACY_PATTERNS = ['**', '**.*', '*', 'pkg.**', '**.ghost', '**.C', '**.Base', '**.f', '**.m', '**.x', '**._p', '**.D.*', 'pkg.dep', 'pkg.mod', 'pkg.sub', 'pkg.sub.**', 'pkg.mod.*', 'pkg.dep.Base', 'pkg.dep.Base.m',
                     'dep', 'dep.Base', 'mod.C', 'pkg', '**.I', '**.__init__', '**.E', '*.mod.C.f', '**.UPPER', 'pkg.sib', '**.g', '**.[CD]', 'pkg.*.?']
 
 DEP_SRC = '''"""dep module"""
